@@ -17,3 +17,4 @@ import TFV.Properties.Src.BoundsControl
 #print axioms TFV.Runs.C07_run_in_box_shade
 #print axioms TFV.SrcTie.C07_src_bounds_control
 #print axioms TFV.SrcTie.C07_src_clamp_agrees
+#print axioms TFV.SrcTie.C07_src_bounds_control_in_box
